@@ -8,6 +8,7 @@ package main
 // that generated archive before it is used.
 
 import (
+	"bytes"
 	"encoding/binary"
 	"sort"
 	"strings"
@@ -76,8 +77,12 @@ func describe(blob []byte, ex *expect) (spec zipgen.Archive, ok bool) {
 			spec.GapBeforeCD = true
 		}
 	}
+	lead := int64(0)
 	if n > 0 && v.Members[idx[0]].HOff != 0 {
-		return spec, false // leading data
+		lead = v.Members[idx[0]].HOff
+		if lead != int64(len(zipgen.Stub)) || !bytes.HasPrefix(blob, zipgen.Stub) {
+			return spec, false // leading data other than the generator's stub
+		}
 	}
 	if gaps != 0 && gaps != nonLast {
 		return spec, false
@@ -104,6 +109,21 @@ func describe(blob []byte, ex *expect) (spec zipgen.Archive, ok bool) {
 	}
 	if int64(len(blob)) > p+22 {
 		spec.EOCDComment = 1
+	}
+	if lead != 0 {
+		// which way are the offsets recorded? (the view holds file positions either way)
+		rec := int64(binary.LittleEndian.Uint32(blob[p+16:]))
+		if has64 && rec == 0xffffffff {
+			rec = int64(binary.LittleEndian.Uint64(blob[cdEnd+48:]))
+		}
+		switch rec {
+		case v.StartDir:
+			spec.Prefix = 1
+		case v.StartDir - lead:
+			spec.Prefix = 2
+		default:
+			return spec, false
+		}
 	}
 	// members, in body order
 	members := make([]zipgen.Member, n)
